@@ -99,7 +99,10 @@ def _replay_one(rec):
         c = rec["cfg"]
         if not c12.float_guard(c["k"], c["gc"]):
             return "skip"
-        filters = [("LocalBioFilter", c12.make_filter(c["k"], c["run"], c["gc"], c["motifs"]))]
+        try:
+            filters = [("LocalBioFilter", c12.make_filter(c["k"], c["run"], c["gc"], c["motifs"]))]
+        except Exception:  # noqa  (a stricter constructor: no filter to discover vertices with)
+            return "skip"
     for name, f in filters:
         g = run_find(k, f)
         if not marked:
@@ -167,7 +170,10 @@ def record(rng, n):
             motifs = [impl.undna(m) for m in ms]
             if not c12.float_guard(k, gc):
                 continue
-            f = c12.make_filter(k, run, gc, motifs)
+            try:
+                f = c12.make_filter(k, run, gc, motifs)
+            except Exception:  # noqa
+                continue
             g = run_find(k, f)
             cases.append({"kind": "find", "src": "cfg", "cfg": {"k": k, "run": run, "gc": gc, "motifs": motifs}, "pred": [], "k": k,
                           "out": g["out"], "verts": g["verts"]})
